@@ -188,6 +188,8 @@ inductive Move
   | intrEnd                       -- … and then writes the event descriptor
   | step (inp : PollIn) (o : Outcome)
   | clear                         -- Server::clear() called while run() is not active
+  | failCreate                    -- listen / connect / pair that returns 0: socket(), bind(), listen(), connect() or a socket
+                                  -- option failed (Server.cpp 124-128, 139-142, 186-195): nothing of the Server's state changes
 
 def move (s : St) : Move → St
   | .act a => applyAct s none a
@@ -201,6 +203,7 @@ def move (s : St) : Move → St
   | .intrEnd => if s.pendingEfd = 0 then s else { s with pendingEfd := s.pendingEfd - 1, eventfd := s.eventfd + 1 }
   | .step inp o => (step s inp o).1
   | .clear => if s.pc = .idle then clearAll s else s
+  | .failCreate => s
 
 /-- the callbacks a move performs -/
 def events (s : St) : Move → List Ev
@@ -279,6 +282,7 @@ theorem inv_move (s : St) (m : Move) (h : Inv s) : Inv (move s m) := by
       · intro i h; cases h
       · intro i h; cases h
     · exact ⟨ht, hu, hs⟩
+  case failCreate => exact ⟨ht, hu, hs⟩
 
 theorem inv_runMoves (s : St) (ms : List Move) (h : Inv s) : Inv (runMoves s ms) := by
   induction ms generalizing s with
